@@ -31,6 +31,8 @@ def run(ctx):
     ctx.do(R.rule_w1)
     ctx.do(R.rule_rep_structure)
     ctx.do(CA.rule_c2, "ProjectiveObject", scope=ctx.scope(ENTRIES))
+    ctx.do(CA.rule_cls1, "Representation")
+    ctx.do(CA.rule_cls1, "ProjectiveObject")
     ctx.do(SH.rule_sh3)
     ctx.do(u1, ENTRIES, min_functions=20)
     ctx.r.assume("associativity, identity and inverse laws as numerical "
